@@ -577,18 +577,13 @@ impl FseTable {
         }
     }
     
-    /// High 64 bits of 128-bit multiplication (portable version)
+    /// High 64 bits of the 128-bit product.
+    ///
+    /// (A version on 32-bit limbs summed the two middle products and a carry in one u64;
+    /// with the reciprocal of a one-slot symbol, 2^64 - 1, that sum does not fit for states
+    /// whose low word is close to 2^32.)
     fn mul_hi(a: u64, b: u64) -> u64 {
-        let a_lo = a & 0xFFFFFFFF;
-        let a_hi = a >> 32;
-        let b_lo = b & 0xFFFFFFFF;
-        let b_hi = b >> 32;
-        
-        let x0 = b_lo * a_lo;
-        let x1 = (b_lo * a_hi) + (b_hi * a_lo) + (x0 >> 32);
-        let x2 = (b_hi * a_hi) + (x1 >> 32);
-        
-        x2
+        ((a as u128 * b as u128) >> 64) as u64
     }
     
     /// Encode symbol using rANS approach
